@@ -238,6 +238,51 @@ def ble_value_formats(out):
 
 
 @extractor
+def scalar_codecs(out):
+    """C16: the per-type integer (de)serialisers of tlv8.py - which function the dispatch tables name for each integer type,
+    and what that function's single return statement does (struct format / to_bytes length and order / from_bytes order)"""
+    t = parse("tlv8.py")
+    tables = {}
+    for n in t.body:
+        tgt = n.target if isinstance(n, ast.AnnAssign) else (n.targets[0] if isinstance(n, ast.Assign) else None)
+        if isinstance(tgt, ast.Name) and tgt.id in ("SERIALIZERS", "DESERIALIZERS") and isinstance(n.value, ast.Dict):
+            tables[tgt.id] = {ast.unparse(k): ast.unparse(v) for k, v in zip(n.value.keys, n.value.values)}
+    if set(tables) != {"SERIALIZERS", "DESERIALIZERS"}:
+        raise Shape("tlv8: dispatch tables")
+
+    def single_return(fname):
+        f = func(t, fname)
+        body = [st for st in f.body if not (isinstance(st, ast.Expr) and isinstance(st.value, ast.Constant))]
+        if len(body) != 1 or not isinstance(body[0], ast.Return):
+            raise Shape(f"tlv8.{fname}: not a single return statement")
+        return body[0].value
+    rows = []
+    for ty in ("u8", "u16", "bu16", "u32", "u64", "u128"):
+        if ty not in tables["SERIALIZERS"] or ty not in tables["DESERIALIZERS"]:
+            raise Shape(f"tlv8: no (de)serialiser registered for {ty}")
+        e = single_return(tables["SERIALIZERS"][ty])
+        if (isinstance(e, ast.Call) and ast.unparse(e.func) == "struct.pack" and len(e.args) == 2 and isinstance(e.args[0], ast.Constant)
+                and ast.unparse(e.args[1]) == "value"):
+            ser = ("struct", 0, e.args[0].value)
+        elif (isinstance(e, ast.Call) and ast.unparse(e.func) == "value.to_bytes" and not e.args
+              and {k.arg for k in e.keywords} == {"length", "byteorder"}):
+            kw = {k.arg: k.value.value for k in e.keywords}
+            ser = ("to_bytes", kw["length"], kw["byteorder"])
+        else:
+            raise Shape(f"tlv8 serialiser of {ty}: {ast.unparse(e)[:60]}")
+        d = single_return(tables["DESERIALIZERS"][ty])
+        if not (isinstance(d, ast.Call) and ast.unparse(d.func) == "int.from_bytes" and len(d.args) == 2 and ast.unparse(d.args[0]) == "value"
+                and isinstance(d.args[1], ast.Constant) and not d.keywords):
+            raise Shape(f"tlv8 deserialiser of {ty}: {ast.unparse(d)[:60]}")
+        rows.append((ty, ser[0], ser[1], ser[2], d.args[1].value))
+    # the enum codec goes through u8
+    es, ed = func(t, "serialize_int_enum"), func(t, "deserialize_int_enum")
+    if "serialize_u8(" not in ast.unparse(es) or "deserialize_u8(" not in ast.unparse(ed):
+        raise Shape("tlv8: the IntEnum codec no longer goes through u8")
+    out["Scalars"] = rows
+
+
+@extractor
 def misc_numbers(out):
     """numeric literals and names at anchored AST shapes for C06 (CoAP resynchronisation window), C07 (framing header names),
     C14 (decimal context), C18 (state-number candidates), C19 (BLE advertisement layout)"""
@@ -992,6 +1037,17 @@ def emit_blemeta(out, files):
          f"def coapRangeRows : List (Nat × String × String) := {rows(d['coapRange'])}",
          "end HapVerif.Gen.BleMeta"]
     files["BleMeta.lean"] = "\n".join(L) + "\n"
+
+
+@emitter
+def emit_scalars(out, files):
+    rows = out["Scalars"]
+    L = ["/-! GENERATED by tools/translate.py from tlv8.py - do not edit. -/", "namespace HapVerif.Gen.Scalars",
+         "/-- (type, serialiser kind, to_bytes length, struct format or byte order, byte order of int.from_bytes) -/",
+         "def rows : List (String × String × Nat × String × String) :=",
+         "  [" + ",\n   ".join(f"({lean_str(a)}, {lean_str(b)}, {c}, {lean_str(d)}, {lean_str(e)})" for a, b, c, d, e in rows) + "]",
+         "end HapVerif.Gen.Scalars"]
+    files["Scalars.lean"] = "\n".join(L) + "\n"
 
 
 @emitter
